@@ -187,7 +187,10 @@ def key_term(k, tab):
         return "(KBool true)" if k else "(KBool false)"
     if isinstance(k, int):
         return f"(KInt ({k}))"
-    return f"(KOther {tab.other(k)})"
+    try:
+        return f"(KOther {tab.other(k)})"
+    except TypeError:          # an unhashable key (a tuple key comes back from the metadata codec as a list)
+        return "(KOther 9999)"
 
 
 def obj_term(o, tab):
@@ -654,7 +657,10 @@ def check_structures(ctx: Ctx, res: Result, with_model: bool):
         c_flat.append((f"({obj_term(obj, tab)}, {s_term(prefix)})", val(exp)))
         meta_flat.append((spec, prefix))
         # ---- inflate correspondence: direct / yaml / reordered / embedded
-        variants = [("yaml", via_yaml(m), f)]
+        try:
+            variants = [("yaml", via_yaml(m), f)]
+        except Exception:  # noqa - already a Failure of the direct oracle above (inflate via yaml raised)
+            variants = []
         if origin != "exhaustive":
             variants.append(("direct", m, f))
             mi, fi = list(m.items()), list(f.items())
